@@ -42,6 +42,20 @@ theorem feed_bytes_chunk_independent {σ : Type} (dec : Cd.IncDecoder σ Nat) (d
       (feed t (dec.feed d chunks.flatten).2).map (fun t' => ((dec.feed d chunks.flatten).1, t')) :=
   feedBytes_eq_whole dec d t chunks
 
+/-- `process()` is `write()` of one byte (after fix 136218d it feeds every character the decoder completes): feeding a byte stream one byte
+    at a time through `process` gives the terminal that one `write` of the whole stream gives -/
+theorem process_bytewise_eq_write {σ : Type} (dec : Cd.IncDecoder σ Nat) (d : σ) (t : Term) (bs : List Nat) :
+    feedBytes dec (d, t) (bs.map (fun b => [b])) =
+      (feed t (dec.feed d bs).2).map (fun t' => ((dec.feed d bs).1, t')) := by
+  have hf : ∀ l : List Nat, (l.map (fun b => [b])).flatten = l := by
+    intro l
+    induction l with
+    | nil => rfl
+    | cons b r ih => simp [ih]
+  have h := feedBytes_eq_whole dec d t (bs.map (fun b => [b]))
+  rw [hf bs] at h
+  exact h
+
 /-! non-vacuity -/
 example : ((feed (Ansi.init 2 3) [27, 91, 53, 59, 54, 72, 97]).map (fun t => (t.p.s, t.p.st, t.scr.w))) =
     some (.INIT, [], [[32, 32, 97], [32, 32, 32]]) := by decide
